@@ -228,3 +228,74 @@ func isErrorType(t types.Type) bool {
 	n, ok := t.(*types.Named)
 	return ok && n.Obj().Pkg() == nil && n.Obj().Name() == "error"
 }
+
+// NilReturnsAfterFailure explores fn from the block of a call on, with the call's error value (errv, or a reload of the
+// cell it was stored in: same) assumed not nil, branches on nil-ness folded, and returns the return instructions that
+// may still report a nil error (last result) - judged along the edges that can be taken in that exploration, so a
+// join of `nil` and the error counts only by the ways into it that remain.  cut: edges never to be taken.
+func NilReturnsAfterFailure(fn *ssa.Function, callBlock *ssa.BasicBlock, same func(ssa.Value) bool, cut map[Edge]bool) []*ssa.Return {
+	seen := map[*ssa.BasicBlock]bool{}
+	exec := map[Edge]bool{}
+	only := -1
+	if len(callBlock.Instrs) > 0 {
+		if i, ok := callBlock.Instrs[len(callBlock.Instrs)-1].(*ssa.If); ok {
+			if cd, ok := Classify(i); ok && cd.Kind == "nil" && same != nil && same(cd.X) {
+				only = cd.EdgeWhen(false).Succ // the block ends in the test of this very error
+			}
+		}
+	}
+	for si := range callBlock.Succs {
+		e := Edge{From: callBlock, Succ: si}
+		if cut[e] || (only >= 0 && si != only) {
+			continue
+		}
+		rb, ex := ReachFromAssume(fn, e, cut, same)
+		for b := range rb {
+			seen[b] = true
+		}
+		for ed := range ex {
+			exec[ed] = true
+		}
+	}
+	var mayNil func(v ssa.Value, depth int) bool
+	mayNil = func(v ssa.Value, depth int) bool {
+		if IsNilConst(v) {
+			return true
+		}
+		if same != nil && same(v) {
+			return false
+		}
+		if c, ok := v.(*ssa.Call); ok {
+			switch CalleeName(c.Common()) {
+			case "github.com/pkg/errors.Wrap", "github.com/pkg/errors.Wrapf", "github.com/pkg/errors.WithMessage", "github.com/pkg/errors.WithStack":
+				if len(c.Call.Args) > 0 {
+					return mayNil(c.Call.Args[0], depth+1)
+				}
+			}
+			return false
+		}
+		if p, ok := v.(*ssa.Phi); ok && depth < 8 {
+			if !seen[p.Block()] {
+				return MayBeNilConst(p)
+			}
+			for _, e := range PhiValues(p, exec) {
+				if mayNil(e, depth+1) {
+					return true
+				}
+			}
+		}
+		return false
+	}
+	var out []*ssa.Return
+	for _, b := range fn.Blocks {
+		if !seen[b] {
+			continue
+		}
+		for _, in := range b.Instrs {
+			if ret, ok := AsReturn(in); ok && len(ret.Results) > 0 && mayNil(RetVal(ret, len(ret.Results)-1), 0) {
+				out = append(out, ret)
+			}
+		}
+	}
+	return out
+}
